@@ -361,8 +361,8 @@ fn uniq_tags(ty: &str, be: &str, xs: &[Option<i64>]) -> String {
 fn uniq_emit(em: &mut Emitter, xs: &[Option<i64>], scale_i32: &dyn Fn(i64) -> i32, scale_f64: &dyn Fn(i64) -> f64, k: usize, share_f: bool) {
     let has_null = xs.iter().any(|x| x.is_none());
     let vi: Vec<Option<i32>> = xs.iter().map(|x| x.map(scale_i32)).collect();
-    let vf: Vec<f64> = if share_f { vi.iter().map(|x| x.map(|v| v as f64).unwrap_or(f64::NAN)).collect() }
-        else { xs.iter().map(|x| x.map(scale_f64).unwrap_or(f64::NAN)).collect() };
+    let vf: Vec<f64> = if share_f { vi.iter().enumerate().map(|(i, x)| x.map(|v| v as f64).unwrap_or(vh::nan_at(i))).collect() }
+        else { xs.iter().enumerate().map(|(i, x)| x.map(scale_f64).unwrap_or(vh::nan_at(i))).collect() };
     let term_z = || format!("(run_uniq_z {})", coq_list(&vi, |x| coq_opt(x, |v| cz(*v))));
     let term_f = || if share_f { term_z() } else { format!("(run_uniq_f {})", coq_list(&vf, |x| coq_optf(*x))) };
     let desc = |ty: &str, be: &str, s: String| format!("fn=vsorted_unique_idx(First|Last)+vsorted_unique ty={} be={} xs={}", ty, be, s);
